@@ -56,7 +56,7 @@ type Config struct {
 	UDPLoss    bool
 	UDPDup     bool
 	UDPReorder bool
-	HistCap    int // bytes of stream history kept per direction (default 32 MiB)
+	FragBudget int // fragmented reads per connection end before reads become whole again (default 4000)
 }
 
 var Cfg Config
@@ -142,6 +142,14 @@ func (p *Pipe) ReadOffset() int {
 	return p.readOff
 }
 
+// Backlog returns the bytes written but not yet delivered to the reader's side
+// and the bytes delivered but not yet read.
+func (p *Pipe) Backlog() (undelivered, unread int) {
+	p.mu.Lock()
+	defer p.mu.Unlock()
+	return len(p.hist) - p.delivOff, p.delivOff - p.readOff
+}
+
 // Ended reports whether the writer closed (fin) or reset (rst) this direction.
 func (p *Pipe) Ended() (ended, rst, visible bool) {
 	p.mu.Lock()
@@ -161,6 +169,7 @@ type TCPConn struct {
 	rdl, wdl      time.Time
 	rdlT, wdlT    *time.Timer
 	fragMode      int
+	fragReads     int
 	delayMode     int
 
 	ClosedAt          time.Duration // local Close time (-1 if open)
@@ -215,6 +224,44 @@ func Dials() []DialRec {
 	w.mu.Lock()
 	defer w.mu.Unlock()
 	return append([]DialRec(nil), w.DialLog...)
+}
+
+// DumpState describes every connection (debugging aid for stuck runs).
+func DumpState() []string {
+	var out []string
+	for _, pr := range Pairs() {
+		for _, x := range []struct {
+			n string
+			p *Pipe
+		}{{"c2s", pr.C2S}, {"s2c", pr.S2C}} {
+			p := x.p
+			p.mu.Lock()
+			out = append(out, fmt.Sprintf("conn#%d %s %s: written=%d delivered=%d read=%d cap=%d ended=%v rst=%v endVis=%v readerGone=%v clientClosed=%v serverClosed=%v",
+				pr.ID, pr.Addr, x.n, len(p.hist), p.delivOff, p.readOff, p.capacity, p.ended, p.endRST, p.endVis, p.readerGone, pr.Client.closed, pr.Server.closed))
+			p.mu.Unlock()
+		}
+	}
+	return out
+}
+
+// Drained reports whether every open connection has consumed everything that
+// was written to it (closed readers do not count).
+func Drained() bool {
+	for _, pr := range Pairs() {
+		for _, x := range []struct {
+			p *Pipe
+			r *TCPConn
+		}{{pr.C2S, pr.Server}, {pr.S2C, pr.Client}} {
+			if x.r.IsClosed() {
+				continue
+			}
+			u, r := x.p.Backlog()
+			if u+r > 0 {
+				return false
+			}
+		}
+	}
+	return true
 }
 
 // SetBlackhole makes dials to addr hang until their timeout (and back).
@@ -280,6 +327,16 @@ func (c *TCPConn) Read(b []byte) (int, error) {
 }
 
 func (c *TCPConn) drawReadSize(n int) int {
+	if c.fragMode != 0 {
+		b := Cfg.FragBudget
+		if b == 0 {
+			b = 4000
+		}
+		c.fragReads++
+		if c.fragReads > b {
+			return n
+		}
+	}
 	switch c.fragMode {
 	case 1: // mixed
 		k := fragSizes[simrt.Draw(len(fragSizes), "net.frag")]
